@@ -457,7 +457,7 @@ func (r *mxRunner) write(a map[string]string) string {
 	ti := int(atoi64(a["t"]))
 	t := r.tracks[ti]
 	pts, dts := atoi64(a["pts"]), atoi64(a["dts"])
-	ntp := time.UnixMilli(atoi64(a["ntp"]))
+	ntp := mxInZone(atoi64(a["ntp"]))
 	ra, pic, par := a["ra"] == "1", a["pic"] == "1", int(atoi64(a["par"]))
 	pays := intsOf(a["pays"])
 	fill := int(atoi64(a["fill"]))
@@ -995,3 +995,13 @@ func (r *mxRunner) req(a map[string]string) string {
 
 var _ = io.EOF
 var _ = binary.BigEndian
+
+
+// mxInZone: the wall-clock instant of a write, expressed in a time zone chosen from the value itself. The property
+// speaks about the instant ("the wall-clock time supplied with the segment's first unit"); an application may hand
+// over times in any location.
+var mxZones = []*time.Location{time.UTC, time.FixedZone("IST", 5*3600+1800), time.FixedZone("EST", -5*3600), time.FixedZone("", 0), time.Local, time.FixedZone("NPT", 5*3600+2700)}
+
+func mxInZone(ms int64) time.Time {
+	return time.UnixMilli(ms).In(mxZones[int((ms/7)%int64(len(mxZones)))])
+}
